@@ -151,9 +151,21 @@ def observe_dask(x, keep=None):
                 keep.append(None)
     try:
         comp = C.Some(observe(x.compute(scheduler='synchronous')))
+    except AssertionError:
+        # Dask's repartition asserts `npartitions_input > npartitions` when compute() collapses
+        # a frame that pack_partitions / set_index left with fewer partitions than asked for
+        # (one row, or one distinct key): not a question of the active geometry.  compute() is
+        # what dask.dataframe.methods.concat makes of the partitions.
+        import pandas as pd
+        COMPUTE_ASSERTIONS[0] += 1
+        fr = [dl.compute(scheduler='synchronous') for dl in x.to_delayed()]
+        comp = C.Some(observe(fr[0] if len(fr) == 1 else pd.concat(fr)))
     except Exception:
         comp = None
     return (meta, parts, comp)
+
+
+COMPUTE_ASSERTIONS = [0]
 
 
 def is_bad(o):
@@ -347,7 +359,7 @@ def apply_dop(ddf, op):
     if k == 'DMask':
         return ddf[ddf['v'] >= op['k']]
     if k == 'DLocAll':
-        return ddf.loc[-10 ** 9:10 ** 9]
+        return ddf.loc[op['lo']:op['hi']]
     if k == 'DAssign':
         return ddf.assign(**{op['name']: 1})
     if k == 'DDrop':
